@@ -11,9 +11,9 @@
 (* the interrupt-context callers, in the recorded real-time order.          *)
 (*                                                                          *)
 (* Alignment: a recorded step of context c stands for 0..MaxSilent actions  *)
-(* of c (Silent), each on the same shared object as the recorded operation  *)
-(* (a word of the atomic run queue or of the event queue, a message slot,   *)
-(* the taint word); the results the                                         *)
+(* of c (Silent), whatever shared object the recorded operation touched (an *)
+(* implementation may test the queues in another order, or not at all where *)
+(* the answer cannot matter); the results the                               *)
 (* recorded step reports must be the oldest results the specification's c   *)
 (* has produced and not yet reported; c may not start its next call while   *)
 (* results are outstanding; a step that produces results is only taken if   *)
@@ -59,7 +59,6 @@ Silent ==
   /\ ti <= Len(T) /\ T[ti].e = "S" /\ T[ti].c \in 0..Len(cfg.isr) /\ nsil < MaxSilent
   /\ rep[T[ti].c] = <<>>
   /\ Step(T[ti].c)
-  /\ obs'.var = T[ti].var
   /\ WillReport(T[ti].c, obs'.calls)
   /\ rep' = [rep EXCEPT ![T[ti].c] = obs'.calls]
   /\ nsil' = nsil + 1 /\ ti' = ti
